@@ -569,11 +569,11 @@ class SBT(Index):
         node = Node(self.factory, name=f"internal.{pos}")
         self._nodes[pos] = node
         for c in self.children(pos):
-            if c.pos in self._missing_nodes or isinstance(c.node, Leaf):
-                cnode = c.node
-                if cnode is None:
-                    self._rebuild_node(c.pos)
-                    cnode = self._nodes[c.pos]
+            cnode = c.node
+            if cnode is None and c.pos in self._missing_nodes:
+                self._rebuild_node(c.pos)
+                cnode = self._nodes[c.pos]
+            if cnode is not None:
                 cnode.update(node)
 
     def parent(self, pos):
